@@ -622,14 +622,22 @@ rc::Gen<std::vector<double>> gen_weights(size_t n)
                                                           }
                                                           return rc::gen::oneOf(gen::logu(1e-6, 1e6), gen::smallint(1, 3));
                                                       });
-            return rc::gen::map(rc::gen::pair(rc::gen::container<std::vector<double>>(n, elem), gen::logu(1e-6, 1e6)),
-                                [keep](std::pair<std::vector<double>, double> wp)
+            // overall magnitude: mostly ordinary, sometimes tiny (e.g. losses of a nearly converged model) or huge
+            const auto scale = rc::gen::oneOf(rc::gen::just(1.0), rc::gen::just(1.0), rc::gen::just(1.0), gen::logu(1e-250, 1e-10), gen::logu(1e-20, 1e-12),
+                                              gen::logu(1e10, 1e250));
+            return rc::gen::map(rc::gen::tuple(rc::gen::container<std::vector<double>>(n, elem), gen::logu(1e-6, 1e6), scale),
+                                [keep](std::tuple<std::vector<double>, double, double> wp)
                                 {
-                                    if (wp.first[keep] <= 0.0)
+                                    auto& w = std::get<0>(wp);
+                                    if (w[keep] <= 0.0)
                                     {
-                                        wp.first[keep] = wp.second;
+                                        w[keep] = std::get<1>(wp);
                                     }
-                                    return wp.first;
+                                    for (auto& x : w)
+                                    {
+                                        x *= std::get<2>(wp);
+                                    }
+                                    return w;
                                 });
         });
 }
@@ -959,16 +967,20 @@ rc::Gen<gcase_t> gen_gcase()
 {
     return rc::gen::mapcat(
         rc::gen::tuple(gen::range<int>(0, 4), rc::gen::oneOf(gen::range<size_t>(1, 10), gen::range<size_t>(1, 200)), gen::range<int>(1, 3),
-                       rc::gen::element(0, 30, 60, 95)),
-        [](const std::tuple<int, size_t, int, int>& t)
+                       rc::gen::element(0, 30, 60, 95), gen::chance(25)),
+        [](const std::tuple<int, size_t, int, int, bool>& t)
         {
             const auto mode         = std::get<0>(t);
             const auto n            = std::get<1>(t);
             const auto tdim         = std::get<2>(t);
             const auto zero_percent = std::get<3>(t);
             const auto total = n + n / 2 + 1; // the training samples are a strict subset of all samples
+            // magnitudes: ordinary, or tiny (losses / gradients of a nearly converged model); not below 1e-120: the squares of
+            // gradient components below ~1e-154 underflow in the L2 norm, which is a floating-point range limit, not the property
+            const bool tiny  = std::get<4>(t);
             const auto value = rc::gen::mapcat(gen::chance(zero_percent),
-                                               [](bool zero) -> rc::Gen<double> { return zero ? rc::gen::just(0.0) : gen::logu(1e-6, 1e3); });
+                                               [tiny](bool zero) -> rc::Gen<double>
+                                               { return zero ? rc::gen::just(0.0) : (tiny ? gen::logu(1e-120, 1e-14) : gen::logu(1e-6, 1e3)); });
             const auto ratio = rc::gen::oneOf(gen::real(0.01, 1.0), rc::gen::element(1.0, 0.5, 0.1));
             return rc::gen::map(
                 rc::gen::tuple(gen::range<uint64_t>(0, (uint64_t(1) << 62)), rc::gen::container<std::vector<double>>(total, value),
